@@ -101,6 +101,7 @@ async fn run_real(line: &str) -> String {
     };
     let mut sock = Some(sock);
     let mut dead = false;
+    let targets: std::cell::RefCell<Vec<Vec<u8>>> = std::cell::RefCell::new(vec![]);
     let announce = format!("http://127.0.0.1:{}/announce", port);
     let doc = format!("d8:announce{}:{}4:infod6:lengthi7e4:name1:f12:piece lengthi4e6:pieces40:AAAAAAAAAAAAAAAAAAAABBBBBBBBBBBBBBBBBBBBee", announce.len(), announce).into_bytes();
     let m = Metainfo::from_bencode(&doc).expect("harness torrent must parse");
@@ -145,6 +146,10 @@ async fn run_real(line: &str) -> String {
                             break;
                         }
                     }
+                    // the request target of this announce ("GET <target> HTTP/1.1")
+                    let line0 = buf.split(|b| *b == b'\r').next().unwrap_or(&[]).to_vec();
+                    let parts: Vec<&[u8]> = line0.split(|b| *b == b' ').collect();
+                    targets.borrow_mut().push(if parts.len() >= 3 { parts[1].to_vec() } else { vec![] });
                     // "<status>:<body hex>": that HTTP status with that body (error pages of any length and content)
                     let custom = ph.split_once(':').map(|(st, hx)| (format!("{} Status", st), unhex(hx)));
                     let (status, body): (&str, Vec<u8>) = match ph {
@@ -206,13 +211,18 @@ async fn run_real(line: &str) -> String {
         None => false,
     };
     run.abort();
+    // every announce, the retries included, must name the torrent and the client the same way
+    let tg = targets.borrow();
+    let same = tg.windows(2).all(|w| w[0] == w[1]) && tg.iter().all(|t| t.windows(10).any(|w| w == b"info_hash="));
     format!(
-        "CMDS {} PEERS {} REQS {} DONE {} EXTRA {}",
+        "CMDS {} PEERS {} REQS {} DONE {} EXTRA {} SAME {} SEEN {}",
         if cmds.is_empty() { "-".to_string() } else { cmds.join(",") },
         peers,
         reqs,
         if done { 1 } else { 0 },
-        if extra { 1 } else { 0 }
+        if extra { 1 } else { 0 },
+        if same { 1 } else { 0 },
+        tg.len()
     )
 }
 
